@@ -507,6 +507,51 @@ func gen(g *hx.Gen) {
 			emit(fam, gr, nil)
 		}
 	}
+	// graphs selected because the search goes through its rarer branches on them (measured on the
+	// transcription of the model at generation time): a cut-off inside splitBin, pruning by the
+	// orbits of the best leaf, a leaf equal to the first but below the best, a better leaf
+	rare := map[string]int{}
+	want := g.Pick(120, 1500)
+	for tries := 0; tries < g.Pick(6000, 80000) && (rare["cutoff-in-splitBin"] < want || rare["h2-best"] < want || rare["leaf=first<best"] < want); tries++ {
+		n := g.Rng.Range(7, 12)
+		var gr *cx.G
+		switch g.Rng.Intn(4) {
+		case 0:
+			gr = cx.RandomRegularSwitch(g.Rng, n, g.Rng.Range(3, 5))
+		case 1:
+			ng := str[g.Rng.Intn(len(str))]
+			if ng.G.N < 6 || ng.G.N > 12 {
+				continue
+			}
+			gr = cx.Perturb(g.Rng, ng.G, 1+g.Rng.Intn(3))
+		case 2:
+			c := cx.RandomGnp(g.Rng, g.Rng.Range(3, 5), 1, 2)
+			gr = cx.Perturb(g.Rng, cx.Copies(2, c), 1)
+		default:
+			gr = cx.RandomGnp(g.Rng, n, g.Rng.Range(3, 7), 10)
+		}
+		gr = relab(gr)
+		var cls [][]int
+		if g.Rng.Intn(3) == 0 {
+			cls = someClasses(gr.N)
+		}
+		cov := map[string]bool{}
+		if _, _, _, _, status := portSearchCov(gr.Adj, cls, maxSteps, cov); status != "ok" {
+			continue
+		}
+		keep := false
+		for _, k := range []string{"cutoff-in-splitBin", "h2-best", "leaf=first<best"} {
+			if cov[k] && rare[k] < want {
+				keep = true
+			}
+		}
+		if keep {
+			for k := range cov {
+				rare[k]++
+			}
+			emit("rare", gr, cls)
+		}
+	}
 	if g.Thorough() {
 		// every isomorphism class on 8 vertices, one random labelling
 		for _, rep := range cx.ClassReps(8) {
